@@ -55,10 +55,67 @@ fn lattice() -> Vec<String> {
         let q = (1u128 << 64) / u;
         v.extend([q - 1, q, q + 1, q + 2]);
     }
+    // values tied to the current clock: the number of whole seconds / minutes / hours / days
+    // since the epoch, and their neighbours (an age bound that reaches back to the epoch)
+    let now = std::time::SystemTime::now().duration_since(std::time::UNIX_EPOCH).map(|d| d.as_secs()).unwrap_or(0) as u128;
+    for u in [1u128, 60, 3600, 86400] {
+        let q = now / u;
+        v.extend([q.saturating_sub(1), q, q + 1, q + 2]);
+    }
     v.sort();
     v.dedup();
     let mut out: Vec<String> = v.iter().map(|x| x.to_string()).collect();
     out.push("1".to_string() + &"0".repeat(39));
+    out
+}
+
+/// Free-text arguments that look like numbers, and pairs of bounds on one attribute in both
+/// orders (an interval computed from two arguments).
+pub fn value_interaction_inputs() -> Vec<String> {
+    let mut out = vec![];
+    let lat = lattice();
+    for kw in VOCAB.iter().filter(|k| k.args == [ArgKind::Str]) {
+        for n in &lat {
+            out.push(format!("{} {n}", kw.word));
+            out.push(format!("{} '{n}'", kw.word));
+        }
+        for w in ["+5", "-5", "0x10", "1e3", "٣", "-0", "00"] {
+            out.push(format!("{} {w}", kw.word));
+        }
+    }
+    let vals = ["0", "1", "2", "7", "1000", "2000", "4294967295"];
+    for kw in VOCAB {
+        let unit = match kw.args {
+            [ArgKind::U32Cmp] | [ArgKind::U64Cmp] => "",
+            [ArgKind::SizeCmp] => "k",
+            [ArgKind::TimeCmpMin] | [ArgKind::TimeCmpDay] => "",
+            _ => continue,
+        };
+        for a in vals {
+            for b in vals {
+                for (sa, sb) in [("+", "-"), ("-", "+"), ("", "-"), ("+", ""), ("+", "+"), ("-", "-"), ("", "")] {
+                    let (x, y) = (format!("{} {sa}{a}{unit}", kw.word), format!("{} {sb}{b}{unit}", kw.word));
+                    out.push(format!("{x} {y}"));
+                    if a != b {
+                        out.push(format!("{x} -a {y} -print0"));
+                        out.push(format!("( {x} , {y} )"));
+                        out.push(format!("{x} -o {y}"));
+                        out.push(format!("{x} -name q {y}"));
+                        out.push(format!("! {x} ! {y}"));
+                    }
+                }
+            }
+        }
+    }
+    // equal products in different units, equal counts in different units
+    for kw in ["-amin", "-mmin", "-cmin", "-atime", "-mtime", "-ctime"] {
+        for (a, b) in [("120", "2h"), ("120m", "2h"), ("1440m", "1d"), ("24h", "1d"), ("3600s", "1h"), ("60s", "1m"), ("0", "0d"), ("0s", "0h"), ("5m", "5d"), ("7", "7")] {
+            for s in ["", "+", "-"] {
+                out.push(format!("{kw} {s}{a} -o {kw} {s}{b}"));
+                out.push(format!("{kw} {s}{b} {kw} {s}{a}"));
+            }
+        }
+    }
     out
 }
 
@@ -153,6 +210,7 @@ pub fn corpus(tier: Tier) -> Vec<String> {
     }
     // 4. numeric boundary lattice
     out.extend(numeric_inputs());
+    out.extend(value_interaction_inputs());
     // 5. growth families
     for k in (1..=64).chain([128, 256, 1024]) {
         if k <= 64 {
@@ -178,6 +236,14 @@ pub fn corpus(tier: Tier) -> Vec<String> {
         out.push(format!("-name {}", "x".repeat(k * 4)));
         out.push(format!("-type {}", vec!["f"; k].join(",")));
         out.push(format!("{}", "-depth ".repeat(k)));
+    }
+    // 5d. very many characters that need escaping in one argument (cost per escape, not per byte)
+    for k in [100usize, 1000, 3000, 10_000, 40_000, 150_000] {
+        out.push(format!("-name {}", "\\".repeat(k)));
+        out.push(format!("-name '{}'", "\"".repeat(k)));
+        out.push(format!("-fprint '{}' -print0", "\"\\".repeat(k / 2)));
+        out.push(format!("-printf '{}'", "\"~".repeat(k / 2)));
+        out.push(format!("-pool {} -xattr {}", "\\".repeat(k / 2), "\\".repeat(k / 2)));
     }
     // 5c. a group as the right (and as the left) operand of each operator, nested 1..64 deep, with
     // each kind of primary innermost (tree walks that visit an operand more than once cost 2^depth)
@@ -238,6 +304,7 @@ pub fn corpus(tier: Tier) -> Vec<String> {
             out.push(format!("{} {}", a.word, b.word));
         }
     }
+    out.push("-mmin 1 -fprint f".to_string());
     out.push(String::new());
     out
 }
